@@ -97,6 +97,9 @@ def gen_cases(tier, seed):
             elif t == 2:
                 cases[-1]["shape"] = [rnd.randint(20, 40), rnd.randint(8, 16),
                                       rnd.randint(4, 10)]
+    for c in cases:
+        if c["route"] == "sharded":
+            c["extra_convert"] = True
     # directed: strongly anisotropic voxels (thin chunks) with compressed_segmentation through
     # the all-in-one/step pair; one voxel per chunk through the step-by-step route
     cases[2].update({"route": "pair", "seg": True, "cseg": True, "type_opt": True,
@@ -105,6 +108,11 @@ def gen_cases(tier, seed):
     cases[2].pop("target", None)
     cases[3].update({"route": "slices", "target": 1, "max_scales": None,
                      "shape": [12, 5, 3]})
+    # directed: --ignore-scaling TOGETHER with --input-max (each changes the value mapping)
+    cases[5].update({"route": "pair", "seg": False, "cseg": False, "dtype": "int16",
+                     "scal": [0.5, 3.0], "ignore": True, "input_max": 200.0,
+                     "method": "average"})
+    cases[5].pop("target", None)
     # directed: header scaling with --ignore-scaling through the all-in-one/step pair
     for k, dtn in ((0, "uint8"), (1, "int16")):
         cases[k].update({"route": "pair", "seg": False, "cseg": False, "dtype": dtn,
@@ -398,17 +406,37 @@ def run_case(case):
                               "detail": f"{ctx}: {d}"})
         # ---- optional re-encoding step and statistics
         Cdir = None
-        if case["extra_convert"] and not v and infoB["data_type"] in ("uint32", "uint64",
-                                                                     "uint8", "uint16"):
+        if case["extra_convert"] and not v and (route == "sharded" or infoB["data_type"] in (
+                "uint32", "uint64", "uint8", "uint16")):
             Cdir = os.path.join(top, "C")
             enc = "compressed_segmentation" if infoB["scales"][0]["encoding"] == "raw" \
                 else "raw"
             src_fullres = os.path.join(B, "info_fullres.json")
-            run("generate_scales_info", "--encoding", enc, *gsi, src_fullres, Cdir)
-            with open(os.path.join(Cdir, "info")) as fh:
-                infoC = json.load(fh)
+            if route != "sharded":
+                run("generate_scales_info", "--encoding", enc, *gsi, src_fullres, Cdir)
+                with open(os.path.join(Cdir, "info")) as fh:
+                    infoC = json.load(fh)
             if route == "sharded":
-                Cdir = None      # plain destination info lacks the source's chunk layout
+                # plain destination info lacks the source's chunk layout: the sharded
+                # dataset is copied with its own description instead (sharded source AND
+                # sharded destination in one command process)
+                shutil.rmtree(Cdir, ignore_errors=True)
+                run("convert_chunks", "--copy-info", B, Cdir)
+                obs["sharded_to_sharded_copies"] = 1
+                if not v:
+                    try:
+                        cdat, infoC, problems = _read(np, Cdir)
+                    except Exception as exc:  # noqa: BLE001
+                        cdat, problems = {}, [f"{type(exc).__name__}: {str(exc)[:100]}"]
+                    obs["completeness_audits"] += 1
+                    if problems:
+                        v.append({"kind": "successful-command-left-unreadable-chunks",
+                                  "detail": f"{ctx}: convert-chunks --copy-info of the "
+                                  f"sharded dataset: {problems[:2]}"})
+                    elif _same(np, cdat, b):
+                        v.append({"kind": "re-encoded-dataset-differs",
+                                  "detail": f"{ctx}: convert-chunks --copy-info of the "
+                                  f"sharded dataset: {_same(np, cdat, b)}"})
             elif [s["chunk_sizes"] for s in infoC["scales"]] == \
                     [s["chunk_sizes"] for s in infoB["scales"]]:
                 run("convert_chunks", *store1, B, Cdir)
@@ -554,4 +582,5 @@ def gates(obs, tier):
         "other_target_chunk_sizes": len(obs.get("target_chunk_sizes", {})) >= 3,
         "one_voxel_chunk_pyramid_attempted": obs.get("target_chunk_sizes", {}).get("1", 0) > 0,
         "strongly_anisotropic_voxels": obs.get("strongly_anisotropic_voxels", 0) >= 3,
+        "sharded_to_sharded_copies": obs.get("sharded_to_sharded_copies", 0) >= 3,
     }
